@@ -123,6 +123,18 @@ func (w *World) pickTarget(t *rapid.T, s *appstate.AppState, sender *Actor, pref
 	case "fresh":
 		a := w.NewActor().Addr
 		return &a, rel
+	case "notvalidated":
+		// an invited or candidate address (a pool may form around an address that is not a validated identity)
+		var xs []common.Address
+		for _, x := range w.Actors {
+			if st := s.State.GetIdentityState(x.Addr); (st == state.Invite || st == state.Candidate) && x.Addr != sender.Addr {
+				xs = append(xs, x.Addr)
+			}
+		}
+		if len(xs) > 0 {
+			a := xs[rapid.IntRange(0, len(xs)-1).Draw(t, "notValidatedIdx")]
+			return &a, rel
+		}
 	case "killed", "undefined":
 		for _, x := range w.Actors {
 			st := s.State.GetIdentityState(x.Addr)
@@ -160,6 +172,8 @@ func genAmount(t *rapid.T, bal *big.Int, label string) *big.Int {
 	}
 }
 
+var rareTypes = []types.TxType{types.KillInviteeTx, types.KillDelegatorTx, types.UndelegateTx, types.ActivationTx, types.DeleteFlipTx, types.CallContractTx, types.TerminateContractTx}
+
 // GenTx draws one signed transaction against the replica's current head state.
 // Most draws are valid-ish (right period, plausible target); the hostile
 // deviations are explicit and labelled.
@@ -183,6 +197,31 @@ func (w *World) GenTx(t *rapid.T, r *Replica, only []types.TxType) (*types.Trans
 		}
 	}
 	typ := pool[rapid.IntRange(0, len(pool)-1).Draw(t, "txType")]
+	// transitions that need a relationship built by earlier transactions (an invitee, a delegator, a pending
+	// delegation, an invitation to activate, a deployed contract) are enabled rarely and then drawn rarely: when one of
+	// them is enabled right now, take it in a quarter of the draws
+	var enabledRare []types.TxType
+	for _, rt := range rareTypes {
+		inPool := false
+		for _, pt := range pool {
+			if pt == rt {
+				inPool = true
+				break
+			}
+		}
+		if !inPool {
+			continue
+		}
+		for _, a := range w.Actors {
+			if w.plausibleSender(s, a, rt) {
+				enabledRare = append(enabledRare, rt)
+				break
+			}
+		}
+	}
+	if len(enabledRare) > 0 && rapid.IntRange(0, 3).Draw(t, "takeEnabledRare") == 0 {
+		typ = enabledRare[rapid.IntRange(0, len(enabledRare)-1).Draw(t, "rareType")]
+	}
 	epoch := st.Epoch()
 	// prefer a sender for which this type is plausible on the current state
 	var plausible []*Actor
@@ -233,7 +272,7 @@ func (w *World) GenTx(t *rapid.T, r *Replica, only []types.TxType) (*types.Trans
 	case types.KillDelegatorTx:
 		tx.To, info.Rel = w.pickTarget(t, s, sender, []string{"delegator"})
 	case types.DelegateTx:
-		tx.To, info.Rel = w.pickTarget(t, s, sender, []string{"other", "god"})
+		tx.To, info.Rel = w.pickTarget(t, s, sender, []string{"other", "god", "other", "notvalidated"})
 	case types.ChangeGodAddressTx:
 		tx.To, info.Rel = w.pickTarget(t, s, sender, []string{"other"})
 	case types.ReplenishStakeTx:
